@@ -21,6 +21,7 @@ def mk_unit(spec):
     return One if u is None else u
 
 def mk_num(n):
+    if n[0] == "decs": return Decimal(n[1])          # a Decimal written out (more digits than the context carries)
     kind, a, b = n
     if kind == "int": return int(Fraction(int(a), int(b)))
     if kind == "float": return int(a) / int(b)
